@@ -94,6 +94,10 @@ class DocActions(object):
       # even if triggered by something else within the same useraction).
       if not col.is_formula():
         self._engine.prevent_recalc(col.node, row_ids, should_prevent=True)
+      else:
+        # Values of a formula column only get set when replaying stored results (undo/redo). That
+        # isn't a change that should fire the trigger formulas that depend on this column.
+        self._engine.prevent_dependent_trigger_recalc(col.node, row_ids)
 
     # Generate the undo action.
     self._engine.out_actions.undo.append(
